@@ -206,6 +206,12 @@ def judge(cmd, vec, labels, res):
     argv = build_argv(cmd, vec)
     viols = []
     worst = B if B in labels.values() else E if E in labels.values() else G
+    if worst == G and cmd == "from-master-xprv" and isinstance(vec.get("secret"), str):
+        # --testnet together with a key whose prefix names the other network is contradictory input: it may be refused, or served
+        # (then like the API, i.e. by the key's own prefix)
+        key_testnet = vec["secret"][:1] in "tuv"
+        if bool(vec["testnet"]) != key_testnet:
+            worst = E
     badwhy = ",".join(k for k, v in labels.items() if v == B)
     pre_ok = all(res["after"].get(k) == v for k, v in res["before"].items())
     if not pre_ok:
